@@ -1,7 +1,7 @@
 (* Proofs/C18.v -- SSH identification string: the parser model (Ssh.v) accepts
    exactly the reference language of Spec/C18.v; Gh0st: the reply is the dumped
    frame, well-formed by env_ok; dispatch- and proto_repl-level statements. *)
-From MS Require Import Proofs.Tactics Proto Spec.AppView Spec.C18 Spec.EnvOk.
+From MS Require Import Proofs.Tactics Proofs.Pending Proto Spec.AppView Spec.C18 Spec.EnvOk.
 
 (* ------------------------------------------------------------------ *)
 (* A. the boolean scanner = the declarative grammar                    *)
@@ -367,13 +367,12 @@ Lemma tcp_first_dispatch E clk ci p i :
   tcp_first_id E p = Some i ->
   exists st,
     proto_repl_tcp E clk ci tcb_new p =
-    (let tc1 := {| t_smack := st; t_proto := i; t_pstate := None |} in
+    (let tc1 := {| t_smack := st; t_proto := i; t_pstate := None; t_pending := [] |} in
      do r <- dispatch E clk ci i (Some tc1) p;
      let '(ci', t', out) := r in
      Ok (ci', match t' with Some x => x | None => tc1 end, out)).
 Proof.
-  unfold tcp_first_id, proto_repl_tcp. cbn [tcb_new t_proto t_smack t_pstate].
-  change (PROTO_NONE =? PROTO_NONE) with true. cbv iota.
+  unfold tcp_first_id. rewrite Pending.proto_repl_tcp_first.
   destruct (search_next (e_proto_tbl E) BASE_STATE p) as [[id st] n].
   intros ->. exists st. reflexivity.
 Qed.
